@@ -309,7 +309,9 @@ func (m c06) payload(c *Ctx, p *c06payload) {
 			}
 		} else {
 			g, ok := got.([]string)
-			if !ok || !sameSeq(g, want) && !(len(g) == 0 && len(want) == 0) {
+			// "exactly the IDs listed": the same IDs, each as often as listed; in which order a to-many relationship
+			// holds them is not stated (it is a set in C01, and marshaling reorders it)
+			if !ok || !sameSet(g, want) && !(len(g) == 0 && len(want) == 0) {
 				c.Violate("to-many-changed", "relationship %q holds %v, payload lists %v; %s", rl.Name, got, want, desc())
 				return
 			}
@@ -480,7 +482,7 @@ func (m c06) partial(c *Ctx, p *c06payload, schema *jsonapi.Schema, data []byte)
 				c.Violate("to-one-changed/UnmarshalPartialResource", "relationship %q holds %v, payload lists %q; %s", rl.Name, got, w, desc())
 				return
 			}
-		} else if g, ok := got.([]string); !ok || (!sameSeq(g, want) && !(len(g) == 0 && len(want) == 0)) {
+		} else if g, ok := got.([]string); !ok || (!sameSet(g, want) && !(len(g) == 0 && len(want) == 0)) {
 			c.Violate("to-many-changed/UnmarshalPartialResource", "relationship %q holds %v, payload lists %v; %s", rl.Name, got, want, desc())
 			return
 		}
